@@ -179,6 +179,46 @@ Proof.
   apply E_ext. intros rest. rewrite E_bind, E_dmap. reflexivity.
 Qed.
 
+(* the kernel loses no mass (no step of the conditional sampler can fail) on a retained path of the right length *)
+Lemma runC_mass ops st rem : GoodC st -> length rem = count_upd ops -> mass (runC ops st rem) = 1.
+Proof. intros HG Hl. unfold mass. exact (runC_x ops st rem (fun _ => 1) HG Hl). Qed.
+
+Lemma runC_GoodC ops : forall st rem, GoodC st -> All GoodC (runC ops st rem).
+Proof.
+  induction ops as [|o ops IH]; intros st rem HG; cbn [Csmc.runC].
+  - apply All_ret. exact HG.
+  - destruct o.
+    + destruct rem as [|a rem]; [intros x []|].
+      apply (All_bind GoodC); [|intros st' Hst'; apply IH; exact Hst'].
+      unfold Csmc.updC.
+      apply (All_dmap (fun l => length l = length (map ext_w (snd st)) /\ Forall (fun pw : @wp A => 0 < snd pw) l)).
+      * apply All_seqdist. rewrite Forall_map. destruct HG as [_ HF]. eapply Forall_impl; [|exact HF].
+        intros pw Hp. apply (All_ext_w q om ompos). exact Hp.
+      * intros rest' [_ Hr]. destruct HG as [Hw _]. split; cbn [fst snd]; [apply Qc_mul_pos; [exact Hw| apply ompos]| exact Hr].
+    + apply (All_bind GoodC); [|intros st' Hst'; apply IH; exact Hst'].
+      unfold Csmc.resC. destruct (rs (cswarm st)); [|apply All_ret; exact HG].
+      apply (All_dmap (fun _ => True)); [apply All_True|]. intros l _. split; cbn [fst snd]; [reflexivity|].
+      unfold fresh. rewrite Forall_map. apply Forall_forall. intros p _. reflexivity.
+Qed.
+
+Theorem pg_kernel_mass ops path : length path = S (count_upd ops) -> mass (pg_kernel q om rs n ops path) = 1.
+Proof.
+  intros Hl. destruct path as [|a1 rem]; [discriminate|]. injection Hl as Hl. unfold mass. cbn [pg_kernel].
+  rewrite E_bind.
+  rewrite (E_ext_All (fun rest => Forall (fun pw : @wp A => 0 < snd pw) rest) _ _ (fun _ => 1)).
+  - rewrite E_const. rewrite (iidn_mass n init_d (ext_w_mass ([], 1))). ring.
+  - apply (All_impl (fun l => length l = n /\ Forall (fun pw : @wp A => 0 < snd pw) l)); [intros l [_ H]; exact H|].
+    apply All_iidn. exact init_pos.
+  - intros rest Hrest.
+    assert (HG0 : GoodC ([a1], om [a1], rest)) by (split; cbn [fst snd]; [apply ompos| exact Hrest]).
+    rewrite E_bind.
+    rewrite (E_ext_All GoodC _ _ (fun _ => 1)).
+    + rewrite E_const. rewrite (runC_mass ops _ rem HG0 Hl). ring.
+    + apply runC_GoodC. exact HG0.
+    + intros st [Hw HF]. fold (mass (select (cswarm st))). unfold Csmc.select.
+      apply (cat_mass (length (snd st))). split; [reflexivity|]. constructor; [exact Hw| exact HF].
+Qed.
+
 Theorem csmc_invariant ops (f : P -> Qc) :
   Ggam (S (count_upd ops)) [] (fun path => E (pg_kernel q om rs n ops path) f)
   = Ggam (S (count_upd ops)) [] (fun path => f (rev path)).
